@@ -365,6 +365,14 @@ func Key[K comparable](k K) K {
 	}
 	if p := identityOf(k); p != nil {
 		t.call(request{kind: regKeyOrd, obj: p})
+		return k
+	}
+	switch any(k).(type) {
+	case int, string, int64, int32, uint64, uint32, uint8, float64, bool:
+		return k
+	}
+	if rv := reflect.ValueOf(k); rv.IsValid() && (rv.Kind() == reflect.Struct || rv.Kind() == reflect.Array) {
+		canon(rv, 0) // numbers the pointers and channels inside a composite key, in insertion order
 	}
 	return k
 }
@@ -429,5 +437,55 @@ func lessAny(a, b any) bool {
 	case reflect.String:
 		return va.String() < vb.String()
 	}
-	return fmt.Sprintf("%#v", a) < fmt.Sprintf("%#v", b)
+	return canon(va, 0) < canon(vb, 0)
+}
+
+// canon renders a map key of composite type as a string that is the same in every
+// execution of a seed: what fmt would print, except that a pointer, channel or
+// unsafe pointer inside it appears as its insertion ordinal (see Key) instead of
+// its address. It only has to be deterministic and injective enough to order keys.
+func canon(v reflect.Value, depth int) string {
+	if !v.IsValid() {
+		return "nil"
+	}
+	if depth > 4 {
+		return v.Type().String()
+	}
+	switch v.Kind() {
+	case reflect.Pointer, reflect.Chan, reflect.UnsafePointer:
+		if v.IsNil() {
+			return "#nil"
+		}
+		p := v.UnsafePointer()
+		if t := current(); t != nil && !t.aborting {
+			return fmt.Sprintf("#%d", t.call(request{kind: regKeyOrd, obj: p}).n)
+		}
+		return "#?"
+	case reflect.Struct:
+		out := v.Type().String() + "{"
+		for i := 0; i < v.NumField(); i++ {
+			out += canon(v.Field(i), depth+1) + ","
+		}
+		return out + "}"
+	case reflect.Array:
+		out := "["
+		for i := 0; i < v.Len(); i++ {
+			out += canon(v.Index(i), depth+1) + ","
+		}
+		return out + "]"
+	case reflect.Interface:
+		if v.IsNil() {
+			return "<nil>"
+		}
+		return v.Elem().Type().String() + ":" + canon(v.Elem(), depth+1)
+	case reflect.Int, reflect.Int8, reflect.Int16, reflect.Int32, reflect.Int64:
+		return fmt.Sprintf("%020d", v.Int()+(1<<62))
+	case reflect.Uint, reflect.Uint8, reflect.Uint16, reflect.Uint32, reflect.Uint64, reflect.Uintptr:
+		return fmt.Sprintf("%020d", v.Uint())
+	case reflect.String:
+		return fmt.Sprintf("%q", v.String())
+	case reflect.Bool, reflect.Float32, reflect.Float64, reflect.Complex64, reflect.Complex128:
+		return fmt.Sprint(v)
+	}
+	return v.Type().String()
 }
